@@ -763,7 +763,10 @@ func c02MRun(r *vrt.Run, rig *c02MRig, c c02MCase) (fs []vrt.Finding) {
 		rig.device = nil
 		rig.group.FilterConfig = c02MGroupCfg(cfg)
 	} else {
-		rig.group.FilterConfig = c02MGroupCfg(c02Cfg{})
+		// The server's filtering group filters too (with the shared part of
+		// the same configuration), so that a requester with a profile who is
+		// wrongly handed the group's filter shows.
+		rig.group.FilterConfig = c02MGroupCfg(cfg)
 		rig.device = &agd.DeviceResultOK{
 			Device: &agd.Device{ID: "dev1", Name: "dev", FilteringEnabled: c.Switch != swDeviceOff},
 			Profile: &agd.Profile{
@@ -910,6 +913,8 @@ func TestVerifC02MW(t *testing.T) {
 	if !thorough {
 		bSafety = bSafety[:2]
 	}
+	bHosts := vrt.Pick(r, c02Hosts, c02HostsThorough)
+	r.Bound("storage_safety_configurations", len(bSafety))
 	vrt.Part(r, "storage", func(emit func(c02BCase)) {
 		c02ReqAssignments(kinds, nSlots, func(req [nSlots]int) {
 			for _, flip := range []bool{false, true} {
@@ -921,7 +926,7 @@ func TestVerifC02MW(t *testing.T) {
 					for s := 0; s < nSlots; s++ {
 						cfg.Resp[s] = (s + si + req[s]) % nRespKinds
 					}
-					for _, h := range c02Hosts {
+					for _, h := range bHosts {
 						for _, qt := range c02QTypes {
 							for who := 0; who < 3; who++ {
 								if who == 2 && (flip || si > 0) {
@@ -948,6 +953,8 @@ func TestVerifC02MW(t *testing.T) {
 	}
 	if !thorough {
 		safeties = []c02Cfg{safeties[0], safeties[2], safeties[3]}
+	} else {
+		safeties = append(safeties[:1], safeties[2:]...)
 	}
 	type respAssign struct {
 		resp   [nSlots]int
@@ -965,6 +972,8 @@ func TestVerifC02MW(t *testing.T) {
 	}
 	if !thorough {
 		resps = resps[:5]
+	} else {
+		resps = append(resps[:5], resps[7])
 	}
 	modeTTL := [][2]int{}
 	for m := 0; m < nModes; m++ {
